@@ -235,6 +235,11 @@ func newsPathScanner(data []byte, _ bool) (advance int, token []byte, err error)
 	}
 
 	advance = 3 + int(data[2])
+	if len(data) < advance {
+		// The item is not complete yet (it straddles the end of the scanner's buffer): ask for more data.
+		return 0, nil, nil
+	}
+
 	return advance, data[3:advance], nil
 }
 
